@@ -139,6 +139,19 @@ func c09Families(tier fw.Tier) []docFamily {
 			lines[0] += shoulds[d[2]]
 			return docgen.Join(lines, doc.Layout.EOL, doc.Layout.FinalNL), nil, false
 		}})
+		// long documents (9 records) for the CLI leg with several CPUs (parallel parser behind `klog print`)
+		shapes := docgen.FBShapes()
+		fs = append(fs, docFamily{"long", len(shapes) * 3, func(i int) (string, []sm.Record, bool) {
+			d := docgen.Doc{Layout: docgen.Layout{EOL: i % 2, Between: []string{""}, FinalNL: true}}
+			for k := 0; k < 9; k++ {
+				src := shapes[(i/3+k*5)%len(shapes)]
+				r := src.Records[k%len(src.Records)]
+				r.Date = fmt.Sprintf("2022-%02d-%02d", 1+(k*7+i)%12, 1+(k*11)%28)
+				r.Unit = sm.Units[(i+k)%4]
+				d.Records = append(d.Records, r)
+			}
+			return d.Text(), nil, false
+		}})
 		return fs
 	})
 }
@@ -147,7 +160,7 @@ func init() {
 	fw.Register(&fw.Check{
 		ID:    "C09",
 		Title: "Printing a file yields an equivalent canonical file (round trip, fixed point)",
-		Rule: "all reference-valid documents of the C01 grammar/formatting/value families plus a notation sweep (28 entry literals x 13 summary shapes x 8 should-total spellings x layouts); " +
+		Rule: "all reference-valid documents of the C01 grammar/formatting/value families plus a notation sweep (28 entry literals x 21 summary shapes x 8 should-total spellings x layouts) and 78 nine-record documents printed through the CLI with 1, 2 and 3 CPUs; " +
 			"a case = one valid document; for each: print, compare with the independently rendered canonical form, re-parse with both parsers, print again",
 		Assumptions: []string{
 			"specmodel.Parse and the independent canonical renderer refPrintLines",
@@ -164,7 +177,7 @@ func init() {
 				if text == "" {
 					continue
 				}
-				c09Text(c, f.name, i, text, f.name == "notation" || (c.Tier == fw.Thorough && i%64 == 0) || i%256 == 0)
+				c09Text(c, f.name, i, text, f.name == "notation" || f.name == "long" || (c.Tier == fw.Thorough && i%64 == 0) || i%256 == 0)
 			}
 		},
 		Replay: func(c *fw.Ctx, raw json.RawMessage) {
@@ -229,15 +242,22 @@ func c09Text(c *fw.Ctx, fam string, idx int, text string, viaCLI bool) {
 	if viaCLI {
 		dir := fw.Scratch()
 		path := clidrv.WriteFile(dir, "c09.klg", text)
-		r := clidrv.Run(clidrv.Home("home"), clidrv.Opts{Now: fixedNow}, "print", "--no-style", "--no-warn", path)
 		want := "\n" + p1 + "\n"
 		if len(rs) == 0 {
 			want = ""
 		}
-		if r.Panicked {
-			c.Violation("panic:cli-print:"+fw.PanicSite(r.Stack), cs(), fmt.Sprintf("klog print panicked: %v\n%s", r.PanicVal, r.Stack))
-		} else if r.Code != 0 || r.Stdout != want {
-			c.Violation("cli-print-differs", cs(), fmt.Sprintf("`klog print --no-style` (exit %d, err %q) printed\n%q\nbut the serialiser gives\n%q", r.Code, r.Err, r.Stdout, want))
+		for _, ncpu := range []int{1, 2, 3} {
+			r := clidrv.Run(clidrv.Home("home"), clidrv.Opts{Now: fixedNow, NumCpus: ncpu}, "print", "--no-style", "--no-warn", path)
+			if r.Panicked {
+				c.Violation("panic:cli-print:"+fw.PanicSite(r.Stack), cs(), fmt.Sprintf("klog print panicked: %v\n%s", r.PanicVal, r.Stack))
+				break
+			} else if r.Code != 0 || r.Stdout != want {
+				c.Violation("cli-print-differs", cs(), fmt.Sprintf("`klog print --no-style` with %d CPU(s) (exit %d, err %q) printed\n%q\nbut the canonical form is\n%q", ncpu, r.Code, r.Err, r.Stdout, want))
+				break
+			}
+			if fam != "long" {
+				break // several CPUs only for the long documents
+			}
 		}
 		c.Outcome("ok-via-cli")
 	}
